@@ -132,7 +132,8 @@ spifconf_register_context(spif_charptr_t name, ctx_handler_t handler)
 unsigned char
 spifconf_register_fstate(FILE * fp, spif_charptr_t path, spif_charptr_t outfile, unsigned long line, unsigned char flags)
 {
-    ASSERT_RVAL(!SPIF_PTR_ISNULL(fp), (unsigned char) -1);
+    /* fp may be NULL:  spifconf_parse_line() pushes a pseudo-file without a stream
+       ("<argv>") for lines that do not come from a file, and pops it again itself. */
     ASSERT_RVAL(!SPIF_PTR_ISNULL(path), (unsigned char) -1);
 
     if (++fstate_idx == fstate_cnt) {
